@@ -19,6 +19,7 @@ fn mine<'a>(res: &'a RunResult) -> Vec<&'a crate::rec::Entry> {
 
 #[derive(Default, Debug)]
 pub struct QueueStats {
+    pub idle_queue_samples: u64,
     pub internal_events_raised: u64,
     pub internal_events_consumed: u64,
     pub external_events_consumed: u64,
@@ -42,6 +43,17 @@ pub fn queue_discipline(res: &RunResult, st: &mut QueueStats) -> Result<(), Viol
     for e in mine(res) {
         match &e.ev {
             Ev::Trace(t) if t.starts_with("SEND ") => xq.push_back(t[5..].to_string()),
+            Ev::AtIdle { internal_queue, .. } => {
+                // invariant at the quiescent point (model-free, read from the session's own queue): the session
+                // may only wait for an external event when its internal queue is empty
+                st.idle_queue_samples += 1;
+                if *internal_queue > 0 {
+                    return Err((
+                        "internal-events-pending-at-external-dequeue".into(),
+                        format!("the session waits for an external event while {} event(s) are still in its internal queue", internal_queue),
+                    ));
+                }
+            }
             Ev::Mark { tag, .. } => {
                 if let Some(n) = tag.strip_prefix("q:") {
                     raised.push(n.to_string());
